@@ -614,7 +614,7 @@ func main() {
 			if th {
 				return 1500
 			}
-			return 120
+			return 80
 		},
 		Fixed: fixed(),
 		Nontrivial: func(ops, outs []string) bool { return len(ops) >= 4 },
